@@ -138,6 +138,13 @@ WRAPC = [('front_continuous', r'void\* extract_front_continuous\(size_t bytes\)\
 TARGETS += [Target('own_update', HDR, r'void update\(iovector_view va\)\s*(?=\{)', rules=[WF])] + [Target('wc_' + n, HDR, loc, rules=WCRULES, common=True) for (n, loc, f) in WRAPC]
 TARGETS += [Target('truncate', HDR, r'size_t truncate\(size_t size\)\s*(?=\{)', common=True, rules=[
     (r'(?<![\w>.])sum\(\)', 'OWN_sum(this)', 1), (r'(?<![\w>.])shrink_to\(', 'OWN_shrink_to(this, ', 1), (r'(?<![\w>.])push_back\(', 'OWN_push_back(this, ', 1)])]
+WF2 = fields_rule(['iov_begin', 'iov_end', 'iovs', 'capacity'], min_fires=0)
+PPR = [(r'do_assert\(\);', 'do_assert_(this);', 1), (r'(?<![\w>.])empty\(\)', 'OWN_empty(this)', 0), WF2]
+TARGETS += [Target('own_empty', HDR, r'bool empty\(\) const\s*(?=\{\s*do_assert\(\);\s*return iov_begin)', rules=PPR),
+            Target('pp_push_front', HDR, r'size_t push_front\(struct iovec iov\)\s*(?=\{)', rules=PPR),
+            Target('pp_push_back', HDR, r'size_t push_back\(struct iovec iov\)\s*(?=\{)', rules=PPR),
+            Target('pp_pop_front', HDR, r'size_t pop_front\(\)\s*(?=\{)', rules=PPR),
+            Target('pp_pop_back', HDR, r'size_t pop_back\(\)\s*(?=\{)', rules=PPR)]
 def _mk_wrapc(n, f):
     def gen(lowered):
         t = open(__file__.rsplit('/', 1)[0] + '/wrapc.c.in').read()
@@ -156,6 +163,7 @@ for (_n, _loc, _a, _k) in WRAPPERS:
 for (_n, _loc, _f) in WRAPC:
     UNITS['wrapc_%s.c' % _n] = _mk_wrapc(_n, _f)
 UNITS['trunc.c'] = 'trunc.c.in'
+UNITS['pp.c'] = 'pp.c.in'
 # element bases are abstract addresses (the buffers they describe are not modelled as objects), so pointer-overflow
 # checks on address arithmetic over them are off; array bounds / dereference / integer checks stay on
 CHECKS = ['--no-standard-checks', '--bounds-check', '--pointer-check', '--div-by-zero-check', '--signed-overflow-check',
@@ -192,6 +200,10 @@ PROOFS = [
 ] + [Proof('wrapper/%s' % _n, 'wrap_%s.c' % _n, 'h_wrapper', kind='L', min_obligations=4, checks=CHECKS) for (_n, _loc, _a, _k) in WRAPPERS] + [
     Proof('wrapper/%s' % _n, 'wrapc_%s.c' % _n, 'h_wrapper', kind='L', min_obligations=4, checks=CHECKS) for (_n, _loc, _f) in WRAPC] + [
     Proof('wrapper/truncate', 'trunc.c', 'h_truncate', kind='L', min_obligations=3, checks=CHECKS),
+    Proof('element/push_back', 'pp.c', 'h_push_back', kind='L', min_obligations=3, checks=CHECKS),
+    Proof('element/push_front', 'pp.c', 'h_push_front', kind='L', min_obligations=3, checks=CHECKS),
+    Proof('element/pop_front', 'pp.c', 'h_pop_front', kind='L', min_obligations=3, checks=CHECKS),
+    Proof('element/pop_back', 'pp.c', 'h_pop_back', kind='L', min_obligations=3, checks=CHECKS),
     Proof('iov_iterator/ctor', 'iov.c', 'h_it_ctor', kind='L', min_obligations=4, **CV),
     Proof('lemma/pre_mono', 'iov.c', 'lemma_pre_mono', kind='L', min_obligations=3, **CV),
 ]
